@@ -272,7 +272,22 @@ pub fn mat(ctx: &mut Ctx) -> String {
 pub fn score(ctx: &mut Ctx, depth: u8) -> String {
     ctx.fresh.clear_caches_for_verif();
     let t = ctx.board.turn();
-    format!("score {} {}", depth, evaluate::score(&mut ctx.board, &mut ctx.fresh, t, depth))
+    let v = evaluate::score(&mut ctx.board, &mut ctx.fresh, t, depth);
+    let mut out = format!("score {} {}", depth, v);
+    // C18 decision predicate on terminal positions (no count-based draw in force): stalemate scores zero
+    // (mate scores are compared with the model, whose constants are translated from the source)
+    if ctx.board.halfmove_clock() < 100 && ctx.board.max_seen_position_count() != 3 {
+        ctx.fresh.clear_caches_for_verif();
+        let none = ctx.fresh.generate_moves(&mut ctx.board, t).is_empty();
+        if none {
+            ctx.fresh.clear_caches_for_verif();
+            let in_check = evaluate::player_is_in_check(&ctx.board, &mut ctx.fresh, t);
+            if !in_check && v != 0 {
+                out.push_str(&format!("\n! C18 stalemate (no legal move, not in check) scored {} at remaining depth {} in [{}]", v, depth, snap(&ctx.board)));
+            }
+        }
+    }
+    out
 }
 
 pub fn piece_counts(b: &Board) -> usize {
